@@ -1154,6 +1154,260 @@ example : (gIndLE 1 1 [(1, 0), (2, 2)] 3
   grind
 
 
+
+theorem evalQuad_agree {n : Nat} {x x' : Asg} (hag : agree n x x') {q : Quad}
+    (h : ∀ t ∈ q, t.2.1 < n ∧ t.2.2 < n) : evalQuad x' q = evalQuad x q := by
+  induction q with
+  | nil => rfl
+  | cons t tl ih =>
+    obtain ⟨c, v, w⟩ := t
+    have hv := h (c, v, w) (by simp)
+    have ht : ∀ t ∈ tl, t.2.1 < n ∧ t.2.2 < n := fun t ht => h t (by simp [ht])
+    simp [evalQuad, ih ht, hag v hv.1, hag w hv.2]
+
+theorem C01_gadget_range_quad (lin : Lin) (q : Quad) (lb ub : Option Rat) (n : Nat)
+    (hb : ∀ p ∈ lin, p.2 < n) (hq : ∀ t ∈ q, t.2.1 < n ∧ t.2.2 < n) :
+    Exact (gRangeQuad lin q lb ub n) n (fun _ => True)
+      (fun x => inRange lb ub (evalLin x lin + evalQuad x q)) := by
+  cases lb with
+  | none =>
+    cases ub with
+    | none => exact ⟨fun y _ _ _ => by simp [inRange], fun x _ _ => realizable_self rfl (by simp [gRangeQuad])⟩
+    | some u =>
+      have key : ∀ x : Asg, (∀ k ∈ (gRangeQuad lin q none (some u) n).cons, k.sat x) ↔
+          inRange none (some u) (evalLin x lin + evalQuad x q) := by
+        intro x; simp [gRangeQuad, Con.sat, Cmp.holds, inRange]
+      exact ⟨fun y _ _ h => (key y).mp h, fun x _ h => realizable_self rfl ((key x).mpr h)⟩
+  | some l =>
+    cases ub with
+    | none =>
+      have key : ∀ x : Asg, (∀ k ∈ (gRangeQuad lin q (some l) none n).cons, k.sat x) ↔
+          inRange (some l) none (evalLin x lin + evalQuad x q) := by
+        intro x; simp [gRangeQuad, Con.sat, Cmp.holds, inRange]
+      exact ⟨fun y _ _ h => (key y).mp h, fun x _ h => realizable_self rfl ((key x).mpr h)⟩
+    | some u =>
+      by_cases hlu : l = u
+      · subst hlu
+        have key : ∀ x : Asg, (∀ k ∈ (gRangeQuad lin q (some l) (some l) n).cons, k.sat x) ↔
+            inRange (some l) (some l) (evalLin x lin + evalQuad x q) := by
+          intro x
+          have e : (l + l) / 2 = l := by grind
+          simp [gRangeQuad, Con.sat, Cmp.holds, inRange, e]; grind
+        have hv : (gRangeQuad lin q (some l) (some l) n).vars = [] := by simp [gRangeQuad]
+        exact ⟨fun y _ _ h => (key y).mp h, fun x _ h => realizable_self hv ((key x).mpr h)⟩
+      · have hne : (l != u) = true := by simp [hlu]
+        constructor
+        · intro y _ haux hc
+          simp [gRangeQuad, hne, auxOk, VarInfo.admits, Con.sat, Cmp.holds, evalLin_append] at haux hc
+          simp [inRange]; grind
+        · intro x _ h
+          refine ⟨fun v => if v = n then u - (evalLin x lin + evalQuad x q) else x v, ?_, ?_, ?_⟩
+          · intro v hv; simp [Nat.ne_of_lt hv]
+          · simp [inRange] at h
+            simp [gRangeQuad, hne, auxOk, VarInfo.admits]; grind
+          · have hag : agree n x (fun v => if v = n then u - (evalLin x lin + evalQuad x q) else x v) := by
+              intro v hv; simp [Nat.ne_of_lt hv]
+            have e1 := evalLin_agree hag hb
+            have e2 := evalQuad_agree hag hq
+            simp [gRangeQuad, hne, Con.sat, Cmp.holds, evalLin_append, e1, e2]; grind
+
+
+
+/-! ## conditional equality `res ⇔ body = rhs` (cond_eq.h) -/
+
+/-- enforced when `res = 0`: the body is at least eps away from rhs -/
+def neqPred (e b rhs : Rat) : Prop := b ≤ rhs - e ∨ rhs + e ≤ b
+
+theorem condEqPos_core (res : Var) (body : Lin) (rhs : Rat) (B : Bnds) (y : Asg)
+    (hne : body.isEmpty = false) (hr : y res = 0 ∨ y res = 1) (hd : inDom B y res) :
+    (∀ c ∈ (condEqPos res body rhs B).cons, c.sat y) ↔ (y res = 1 → evalLin y body = rhs) := by
+  simp only [condEqPos, hne, Bool.false_eq_true, if_false]
+  by_cases hf : (B res).isFixed = true
+  · have hv := fixed_val hf hd
+    simp only [hf, if_true]
+    by_cases h0 : (B res).fixedVal = 0
+    · have : ((B res).fixedVal != 0) = false := by simp [h0]
+      simp only [this, Bool.false_eq_true, if_false]
+      constructor
+      · intro _ h1; rw [hv, h0] at h1; exact absurd h1 (by grind)
+      · intro _ c hc; exact absurd hc (by simp)
+    · have : ((B res).fixedVal != 0) = true := by simp [h0]
+      have h1 : y res = 1 := by rcases hr with h | h <;> grind
+      simp [this, Con.sat, Cmp.holds, h1]
+  · simp [hf, Con.sat, Cmp.holds]
+
+theorem condEqPos_noaux (res : Var) (body : Lin) (rhs : Rat) (B : Bnds) :
+    (condEqPos res body rhs B).refusal = none ∧ (condEqPos res body rhs B).vars = [] := by
+  unfold condEqPos; split <;> (try split) <;> (try split) <;> exact ⟨rfl, rfl⟩
+
+theorem condEqNeg_refusal (res : Var) (body : Lin) (rhs : Rat) (B : Bnds) (o : Opts) (n : Nat) :
+    (condEqNeg res body rhs B o n).refusal = none := by
+  unfold condEqNeg; split <;> (try split) <;> rfl
+
+/-- the negative part, soundness: with the two flags binary, `res = 0` forces the body away from rhs -/
+theorem condEqNeg_sound (res : Var) (body : Lin) (rhs : Rat) (B : Bnds) (o : Opts) (n : Nat) (y : Asg)
+    (hne : body.isEmpty = false) (hr : y res = 0 ∨ y res = 1) (hd : inDom B y res)
+    (haux : auxOk n y (condEqNeg res body rhs B o n).vars)
+    (hc : ∀ c ∈ (condEqNeg res body rhs B o n).cons, c.sat y) :
+    y res = 0 → neqPred (cmpEpsOf o (linBnd B body).2.2) (evalLin y body) rhs := by
+  intro h0
+  simp only [condEqNeg, hne, Bool.false_eq_true, if_false] at haux hc
+  by_cases hcond : (!(B res).isFixed || (B res).fixedVal == 0) = true
+  · simp only [hcond, if_true, auxOk, and_true] at haux
+    simp [hcond, Con.sat, Cmp.holds] at hc
+    have b1 := binary_admits haux.1
+    have b2 := binary_admits haux.2
+    obtain ⟨c1, c2, c3⟩ := hc
+    unfold neqPred
+    rcases b1 with e1 | e1 <;> rcases b2 with e2 | e2 <;> simp [e1, e2, h0] at c1 c2 c3 ⊢ <;> grind
+  · -- fixed at a nonzero value: contradiction with res = 0
+    have hf : (B res).isFixed = true := by
+      cases h1 : (B res).isFixed <;> simp [h1] at hcond ⊢
+    have hv := fixed_val hf hd
+    have : (B res).fixedVal ≠ 0 := by
+      intro h; simp [hf, h] at hcond
+    rw [hv] at h0; exact absurd h0 this
+
+/-- the negative part, completeness -/
+theorem condEqNeg_complete (res : Var) (body : Lin) (rhs : Rat) (B : Bnds) (o : Opts) (n : Nat) (x : Asg)
+    (hne : body.isEmpty = false) (hrn : res < n) (hb : ∀ p ∈ body, p.2 < n)
+    (hr : x res = 0 ∨ x res = 1)
+    (h : x res = 0 → neqPred (cmpEpsOf o (linBnd B body).2.2) (evalLin x body) rhs) :
+    ∃ x' : Asg, agree n x x' ∧ auxOk n x' (condEqNeg res body rhs B o n).vars ∧
+      ∀ c ∈ (condEqNeg res body rhs B o n).cons, c.sat x' := by
+  let eps := cmpEpsOf o (linBnd B body).2.2
+  let f1 : Rat := if x res = 0 ∧ evalLin x body ≤ rhs - eps then 1 else 0
+  let f2 : Rat := if x res = 0 ∧ ¬ evalLin x body ≤ rhs - eps then 1 else 0
+  refine ⟨fun v => if v = n then f1 else if v = n + 1 then f2 else x v, ?_, ?_, ?_⟩
+  · intro v hv
+    have h1 : v ≠ n := Nat.ne_of_lt hv
+    have h2 : v ≠ n + 1 := by omega
+    simp [h1, h2]
+  · simp only [condEqNeg, hne, Bool.false_eq_true, if_false]
+    split
+    · simp only [auxOk, and_true, if_true]
+      constructor
+      · apply admits_binary_of; simp only [f1]; split <;> simp
+      · have : n + 1 ≠ n := by omega
+        simp only [this, if_false, if_true]
+        apply admits_binary_of; simp only [f2]; split <;> simp
+    · simp [auxOk]
+  · have hag : agree n x (fun v => if v = n then f1 else if v = n + 1 then f2 else x v) := by
+      intro v hv
+      have h1 : v ≠ n := Nat.ne_of_lt hv
+      have h2 : v ≠ n + 1 := by omega
+      simp [h1, h2]
+    have eb := evalLin_agree hag hb
+    have er : res ≠ n := Nat.ne_of_lt hrn
+    have er2 : res ≠ n + 1 := Nat.ne_of_lt (Nat.lt_succ_of_lt hrn)
+    have en : n + 1 ≠ n := by omega
+    simp only [condEqNeg, hne, Bool.false_eq_true, if_false]
+    split
+    · simp only [List.mem_cons, List.not_mem_nil, or_false, forall_eq_or_imp, forall_eq, Con.sat, Cmp.holds,
+        evalLin_cons, evalLin_nil, eb, er, er2, en, if_true, if_false]
+      rcases hr with h0 | h0
+      · have hp := h h0
+        unfold neqPred at hp
+        by_cases hle : evalLin x body ≤ rhs - eps
+        · simp [f1, f2, h0, hle]; grind
+        · have : rhs + eps ≤ evalLin x body := by rcases hp with hp | hp <;> grind
+          simp [f1, f2, h0, hle]; grind
+      · have hn0 : ¬ x res = 0 := by rw [h0]; grind
+        simp [f1, f2, hn0, h0]; grind
+    · intro c hc; exact absurd hc (by simp)
+
+/-- what `CondEQConverter_MIP` emits (cases converted by `Base::Convert`): `res = 1 ⇒ body = rhs` for a positive
+part of the context, `res = 0 ⇒ body ≤ rhs - eps ∨ body ≥ rhs + eps` (two fresh binaries) for a negative part -/
+theorem C01_gadget_condeq_emits (res : Var) (body : Lin) (rhs : Rat) (ctx : Ctx) (B : Bnds) (o : Opts) (n : Nat)
+    (hne : body.isEmpty = false) (hrn : res < n) (hb : ∀ p ∈ body, p.2 < n) :
+    Exact (gCondEq res body rhs ctx B o n) n (condDom B res)
+      (fun x => (ctx.eff.hasPos = true → x res = 1 → evalLin x body = rhs) ∧
+                (ctx.eff.hasNeg = true → x res = 0 → neqPred (cmpEpsOf o (linBnd B body).2.2) (evalLin x body) rhs)) := by
+  have rN := condEqNeg_refusal res body rhs B o n
+  have pP := condEqPos_noaux res body rhs B
+  constructor
+  · intro y ⟨hr, hd⟩ haux hc
+    have cP := condEqPos_core res body rhs B y hne hr hd
+    by_cases hN : needNeg ctx true (B res) = true <;> by_cases hP : needPos ctx true (B res) = true <;>
+      simp only [gCondEq, dispatch, hN, hP, if_true, if_false, rN, pP.1, pP.2, List.append_nil, List.nil_append,
+        Bool.false_eq_true, List.mem_append, List.not_mem_nil] at haux hc <;>
+      (try simp only [Bool.not_eq_true] at hN hP)
+    · refine ⟨fun _ => cP.mp (fun c h => hc c (Or.inr h)), fun _ => ?_⟩
+      exact condEqNeg_sound res body rhs B o n y hne hr hd haux (fun c h => hc c (Or.inl h))
+    · refine ⟨fun e1 h1 => ?_, fun _ => condEqNeg_sound res body rhs B o n y hne hr hd haux hc⟩
+      have := pos_skip e1 hP hd; rw [h1] at this; exact absurd this (by grind)
+    · refine ⟨fun _ => cP.mp hc, fun e2 h0 => ?_⟩
+      have := neg_skip e2 hN hd; rw [h0] at this; exact absurd this (by grind)
+    · refine ⟨fun e1 h1 => ?_, fun e2 h0 => ?_⟩
+      · have := pos_skip e1 hP hd; rw [h1] at this; exact absurd this (by grind)
+      · have := neg_skip e2 hN hd; rw [h0] at this; exact absurd this (by grind)
+  · intro x ⟨hr, hd⟩ ⟨h1, h2⟩
+    by_cases hN : needNeg ctx true (B res) = true <;> by_cases hP : needPos ctx true (B res) = true <;>
+      simp only [Out.realizable, gCondEq, dispatch, hN, hP, if_true, if_false, rN, pP.1, pP.2, List.append_nil,
+        List.nil_append, Bool.false_eq_true, List.mem_append, List.not_mem_nil] <;>
+      (try simp only [Bool.not_eq_true] at hN hP)
+    · have e1 : ctx.eff.hasPos = true := by simp [needPos] at hP; exact hP.1
+      have e2 : ctx.eff.hasNeg = true := by simp [needNeg] at hN; exact hN.1
+      obtain ⟨x', hag, hax, hcs⟩ := condEqNeg_complete res body rhs B o n x hne hrn hb hr (h2 e2)
+      refine ⟨x', hag, hax, ?_⟩
+      intro c hc
+      rcases hc with hc | hc
+      · exact hcs c hc
+      · have hr' : x' res = 0 ∨ x' res = 1 := by rw [hag res hrn]; exact hr
+        have hd' : inDom B x' res := by unfold inDom; rw [hag res hrn]; exact hd
+        refine (condEqPos_core res body rhs B x' hne hr' hd').mpr ?_ c hc
+        rw [hag res hrn, evalLin_agree hag hb]; exact h1 e1
+    · have e2 : ctx.eff.hasNeg = true := by simp [needNeg] at hN; exact hN.1
+      exact condEqNeg_complete res body rhs B o n x hne hrn hb hr (h2 e2)
+    · have e1 : ctx.eff.hasPos = true := by simp [needPos] at hP; exact hP.1
+      exact ⟨x, fun _ _ => rfl, by simp [auxOk],
+        (condEqPos_core res body rhs B x hne hr hd).mpr (h1 e1)⟩
+    · exact ⟨x, fun _ _ => rfl, by simp [auxOk], by intro c hc; exact absurd hc (by simp)⟩
+
+theorem C01_gadget_condeq_sound (ctx : Ctx) (e b rhs r : Rat) (he : 0 < e) (hr : r = 0 ∨ r = 1)
+    (h : (ctx.eff.hasPos = true → r = 1 → b = rhs) ∧ (ctx.eff.hasNeg = true → r = 0 → neqPred e b rhs)) :
+    rel ctx r (b2r (Cmp5.eq.holds b rhs)) := by
+  rw [rel_b2r_iff ctx r _ hr]
+  obtain ⟨h1, h2⟩ := h
+  refine ⟨fun hp h0 => h1 hp h0, fun hn h0 => ?_⟩
+  have := h2 hn h0
+  unfold neqPred at this
+  simp only [Cmp5.holds]; grind
+
+/-- exact for integer bodies when the right-hand side is an integer (eps = 1).
+FULL STATEMENT (any right-hand side) fails: `C01_counterexample_condeq_nonint_rhs`. -/
+theorem C01_gadget_condeq_exact_int_partial (ctx : Ctx) (b rhs r : Rat)
+    (hb : isIntVal b) (hrhs : isIntVal rhs) (hr : r = 0 ∨ r = 1) :
+    ((ctx.eff.hasPos = true → r = 1 → b = rhs) ∧ (ctx.eff.hasNeg = true → r = 0 → neqPred 1 b rhs))
+      ↔ rel ctx r (b2r (Cmp5.eq.holds b rhs)) := by
+  constructor
+  · exact C01_gadget_condeq_sound ctx 1 b rhs r (by grind) hr
+  · rw [rel_b2r_iff ctx r _ hr]
+    intro ⟨h1, h2⟩
+    refine ⟨fun hp h0 => h1 hp h0, fun hn h0 => ?_⟩
+    have hne := h2 hn h0
+    simp only [Cmp5.holds] at hne
+    have lt1 : b < rhs → b + 1 ≤ rhs := int_lt_add_one hb hrhs
+    have lt2 : rhs < b → rhs + 1 ≤ b := int_lt_add_one hrhs hb
+    unfold neqPred
+    by_cases hlt : b < rhs
+    · left; have := lt1 hlt; grind
+    · right; have : rhs < b := by grind
+      have := lt2 this; grind
+
+/-- integer body value 1, right-hand side 3/2 (reachable with `cvt:pre:eqresult=0`, e.g. `b <==> (x + y == 1.5)`
+over integers): `res = 0` is what the original relation demands, but the emitted `body ≤ 1/2 ∨ body ≥ 5/2`
+(eps = 1 for integer bodies) excludes the point. -/
+theorem C01_counterexample_condeq_nonint_rhs :
+    ∃ (b rhs r : Rat), isIntVal b ∧ (r = 0 ∨ r = 1) ∧
+      rel .mix r (b2r (Cmp5.eq.holds b rhs)) ∧
+      ¬ ((Ctx.mix.eff.hasPos = true → r = 1 → b = rhs) ∧ (Ctx.mix.eff.hasNeg = true → r = 0 → neqPred 1 b rhs)) := by
+  refine ⟨1, 3/2, 0, isIntVal_one, Or.inl rfl, ?_, ?_⟩
+  · have : ¬ ((1 : Rat) = 3/2) := by grind
+    simp [rel, req, Ctx.eff, b2r, Cmp5.holds, this]
+  · simp [Ctx.eff, Ctx.hasNeg, Ctx.hasPos, neqPred]; grind
+
+
 /-!
 ## Stage 2 (NOT proved here): composition
 
